@@ -303,11 +303,19 @@ func Ambiguity(s *Schema, v *Val) float64 {
 		} else if sameClass(n, v) {
 			switch n.Kind {
 			case KObject:
-				props, _, _ := (&Oracle{S: s}).EffProps(n) // own and allOf-inherited properties
+				props, ap, _ := (&Oracle{S: s}).EffProps(n) // own and allOf-inherited properties
 				for _, m := range v.Members {
 					for _, p := range props {
 						if p.Key == m.Key || p.Shortcut {
 							if x := f(p.Node, m.V, depth+1); x > res {
+								res = x
+							}
+						}
+					}
+					// a member may (also) be judged by the type named in additionalProperties
+					if ap != nil && ap.IsStr {
+						if t := s.Type(ap.Str); t != nil && t.Root != nil {
+							if x := f(t.Root, m.V, depth+1); x > res {
 								res = x
 							}
 						}
